@@ -38,6 +38,12 @@ if rnd % 4 == 1 and rnd > 12:
         "a defect in a PUBLIC API DETAIL that the library's own callers never exercise: an exported helper or method used directly, the zero value of an exported type, a nil or empty argument, calling two exported functions in an unusual but allowed order, an exported field set by the application",
         "a defect that depends on the ENVIRONMENT or on the FORM of the input rather than its content: CRLF line ends, a byte order mark, a missing final newline, file names and directory order, very long lines, the time zone or the current time, GOMAXPROCS, map iteration order",
     ]
+if rnd % 4 == 2 and rnd > 12:
+    AIMS = [
+        "a defect in COPY versus SHARE semantics: a slice or map handed out to, or taken from, the caller without copying; sub-slices that share a backing array so that an append overwrites a neighbour; a struct copied by value that holds a pointer or a map; a method with a value receiver that modifies a copy; a node of the parsed tree shared between two parents",
+        "a defect in DEFAULTS and ZERO VALUES: an option left unset, a zero count or an empty string treated as 'not given' (or the other way round), a default that differs between two entry points that should agree (Tofu.Render and Renderer.Execute, soyjs.Write and Generator.WriteFile, data.New and data.NewWith, Compile and CompileToTofu), a default applied twice or at the wrong time",
+        "a defect in a value that passes through TWO LAYERS or comes BACK as input: escaped twice or not at all where two escapers meet, a value converted twice, the output of one API fed into another (an extracted catalogue loaded back, generated JavaScript evaluated, a printed expression parsed again, an error text taken apart by errortypes), text normalised before and after another step",
+    ]
 os.makedirs("/tmp/wt", exist_ok=True)
 for line in open(os.path.join(root, "properties.jsonl")):
     p = json.loads(line)
